@@ -2,11 +2,13 @@
 """sens.py [<property> ...]  Applies every /verif/mutations/<property>/*.diff (and /verif/seeded/*/patch.diff whose
 meta.json names the property) to /repo, runs the quick check, reverts, and prints whether the check fired."""
 import subprocess, sys, os, glob, json, time
-props = sys.argv[1:] or sorted(os.listdir("/verif/mutations"))
+seeded_only = "--seeded" in sys.argv
+args = [a for a in sys.argv[1:] if not a.startswith("--")]
+props = args or sorted(os.listdir("/verif/mutations"))
 subprocess.run(["git", "-C", "/repo", "diff", "--quiet"], check=True)
 rows = []
 for prop in props:
-    patches = sorted(glob.glob(f"/verif/mutations/{prop}/*.diff"))
+    patches = [] if seeded_only else sorted(glob.glob(f"/verif/mutations/{prop}/*.diff"))
     for m in sorted(glob.glob("/verif/seeded/*/meta.json")):
         try:
             meta = json.load(open(m))
